@@ -36,13 +36,20 @@ SHARD_TIMEOUT = {'quick': 900, 'thorough': 3600}
 ROOT = os.path.dirname(os.path.dirname(os.path.dirname(os.path.abspath(__file__))))
 
 SPECIAL_CUSTOM = ['\\tens^{a}_{b} and', 'x \\tens_{c}^{d} y', '\\tens^a', '\\tens z', '\\tens_b^c_d', '\\vv{a{b}c}', '\\vv{a{b', '\\vv|x|', '\\vv{', '\\vvb{x}{a{b}c}y', '\\vv{{{', 'a\\vv{x}b\\vv{p{q}r}c',
-                  '\\vvb{\\vv{u{v}w}}{z}', '\\txt{a $b$ c}', '$\\txt{a}$', '\\begin{mathenv}x\\end{mathenv}']
+                  '\\vvb{\\vv{u{v}w}}{z}', '\\txt{a $b$ c}', '$\\txt{a}$', '\\begin{mathenv}x\\end{mathenv}',
+                  'x \\\\ [y] z', 'x \\\\[y] z', '\\txto [a]{b}', '\\txto[a]{b}']
 SPECIAL_DEFS = ['\\defmacro{foo} \\foo{x} y', 'Here \\foo{x} is not defined.', '{\\defmacro{bar}\\bar{1}} \\bar{2}',
                 '\\defmacro{foo}\\defmacro{baz}\\baz{\\foo{q}}r', '\\baz{a}{b}', '\\begin{fooenv}[o]x\\end{fooenv}',
                 '\\defmacro{foo}\\begin{fooenv}[o]x\\end{fooenv}', '$\\defmacro{qq}\\qq{1}$ \\qq{2}', '\\bar{1}\\qq{2}']
 SPECIAL_DEFAULT = ['\\verb|a{b|', '\\begin{verbatim}{{\\end{verbatim}', '\\begin{lstlisting}[a=b]{\\end{lstlisting}',
                    '\\textbf{a', 'a}b', '$x', '\\begin{itemize}\\item a', '\\newcommand\\foo[1]{x#1}', '\\\\*[2pt]a',
-                   '\\cite[a][b]{k}', '\\section*{t}']
+                   '\\cite[a][b]{k}', '\\section*{t}',
+                   # the same kind of argument read under different whitespace rules (line-break macro vs ordinary calls)
+                   'a \\\\ [x] b', 'a \\\\[2mm] b', '\\section [s]{t}', '\\begin{enumerate} [(i)]\\item a\\end{enumerate}',
+                   '\\cite[see] [p. 3]{k}', '\\sqrt [3]{x}', '\\sqrt[3]{x}']
+# documents whose reading depends on which of them instantiated a shared argument parser first: all orderings are run
+ORDER_SENSITIVE = {'default': ['a \\\\ [x] b', '\\sqrt[3]{x}', '\\cite[see] [p. 3]{k}'],
+                   'custom': ['x \\\\ [y] z', '\\txto [a]{b}', 'x \\\\[y] \\txto[a]{b}']}
 
 
 def plan(tier, seed):
@@ -61,7 +68,7 @@ def floors(tier):
             'history_calls_compared': 1500, 'db_snapshots_compared': 1500, 'hist:mode:strict': 300,
             'hist:mode:tolerant': 300, 'hist:outcome:parse_error': 30, 'verbatim_arg_documents': 10,
             'context_extending_documents': 9, 'parses_with_shared_parser_object': 200,
-            'parser_class_context_documents': 50}
+            'parser_class_context_documents': 50, 'order_sensitive_triples': 4}
 
 
 def setup(rec):
@@ -197,7 +204,7 @@ def run_shard(desc, rec):
             docs = docs[:4] + list(SPECIAL_DEFS)
             rec.monitor('context_extending_documents', len(SPECIAL_DEFS))
         else:
-            docs += rng.sample(SPECIAL_CUSTOM if desc['vocab'] == 'custom' else SPECIAL_DEFAULT, 8)
+            docs += rng.sample(SPECIAL_CUSTOM if desc['vocab'] == 'custom' else SPECIAL_DEFAULT, 10)
         # some documents broken on purpose (they fail in strict mode / recover in tolerant mode)
         for _ in range(3):
             s = rng.choice(docs)
@@ -212,12 +219,16 @@ def run_shard(desc, rec):
             rec.sample({'ctx': cdesc, 'calls': calls[:4]})
         check_case(case, rec, refs)
         # all orderings of a triple, strict and tolerant
-        triple = rng.sample(docs, 3)
-        for perm in itertools.permutations(triple):
-            for tol in (False, True):
-                calls = [[d, tol] for d in perm]
-                rec.case(3)
-                check_case({'ctx': cdesc, 'calls': calls}, rec, refs)
+        triples = [rng.sample(docs, 3)]
+        if h == 0 and desc['vocab'] in ORDER_SENSITIVE:
+            triples.append(ORDER_SENSITIVE[desc['vocab']])
+            rec.monitor('order_sensitive_triples')
+        for triple in triples:
+            for perm in itertools.permutations(triple):
+                for tol in (False, True):
+                    calls = [[d, tol] for d in perm]
+                    rec.case(3)
+                    check_case({'ctx': cdesc, 'calls': calls}, rec, refs)
 
 
 LEVEL_TEXT = ('Exploration of call histories with cross-process differential: sequences of 10-40 parses (and all orderings of '
